@@ -18,7 +18,7 @@ use vmodel::*;
 pub fn spec() -> PropSpec {
     PropSpec {
         id: "C04",
-        rule: "cases: (a, b, carry-in, borrow-in) with operand pairs from the shared edge shapes (constants, 2^k±1, patterned limbs, runs of ones, random bit length, uniform, zero-padded, related a±1/!a/-a) and from C04 constructions: a carry generated in a chosen limb (or by the carry-in) that ripples through a run of limbs with a[i]+b[i]=MAX up to the full width (MAX..MAX + 1), the same for borrows with a[i]=b[i] (0 - 1), alternating 0/MAX limbs, a+b in {2^W-2..2^W+2}, a-b in {0, ±1, ±2^(64j)}; carry-in in {0,1,2,MAX,random word}; borrow-in in {0,MAX} (the documented mask encoding only); boxed operands of 1..=40 limbs with equal / ±1 / unrelated precisions, Uint<N> and u8..u128 right-hand sides narrower, equal and wider than the boxed receiver. Every add / sub / neg form of the type is checked on each case against BigInt arithmetic. non-trivial: a carry (a[i]+b[i]=MAX with a carry entering) or borrow (a[i]=b[i] with a borrow entering) passes through >= 2 consecutive limbs, or negation carries through >= 2 zero limbs, or carry-in > 1, or a+b+carry or a-b-borrow reduced mod 2^W is 0 or 2^W-1, or the sum / difference wraps (lies outside [0,2^W)); distinct by the operand limbs (incl. their lengths), carry-in, borrow-in and right-hand-side type. surface/* (API-surface audit, /verif/audit/B.md): the same generators and rule at further widths (13, 15, 17, 24, 64 limbs; identity and none-propagation probes at 3, 5, 7 limbs) and through further routes (generic functions, a fold from num_traits zero() with a third summand in {0, 0..2, arbitrary}, adc_assign / sbb_assign with every AsRef<[Limb]> argument type, wrapper operands built through From<CtOption> / Default / constant-time selection / a bincode round trip); limb routes: non-trivial when a+b or a-b wraps or is 0 / MAX.",
+        rule: "cases: (a, b, carry-in, borrow-in) with operand pairs from the shared edge shapes (constants, 2^k±1, patterned limbs, runs of ones, random bit length, uniform, zero-padded, related a±1/!a/-a) and from C04 constructions: a carry generated in a chosen limb (or by the carry-in) that ripples through a run of limbs with a[i]+b[i]=MAX up to the full width (MAX..MAX + 1), the same for borrows with a[i]=b[i] (0 - 1), alternating 0/MAX limbs, a+b in {2^W-2..2^W+2}, a-b in {0, ±1, ±2^(64j)}; carry-in in {0,1,2,MAX,random word}; borrow-in in {0,MAX} (the documented mask encoding only); boxed operands of 1..=40 limbs with equal / ±1 / unrelated precisions, Uint<N> and u8..u128 right-hand sides narrower, equal and wider than the boxed receiver. Every add / sub / neg form of the type is checked on each case against BigInt arithmetic. non-trivial: a carry (a[i]+b[i]=MAX with a carry entering) or borrow (a[i]=b[i] with a borrow entering) passes through >= 2 consecutive limbs, or negation carries through >= 2 zero limbs, or carry-in > 1, or a+b+carry or a-b-borrow reduced mod 2^W is 0 or 2^W-1, or the sum / difference wraps (lies outside [0,2^W)); distinct by the operand limbs (incl. their lengths), carry-in, borrow-in and right-hand-side type. surface/* (API-surface audit, /verif/audit/B.md): the same generators and rule at further widths (13, 15, 17, 24, 64 limbs; identity and none-propagation probes at 3, 5, 7 limbs) and through further routes (generic functions, a fold from num_traits zero() with a third summand in {0, 0..2, arbitrary}, adc_assign / sbb_assign with every AsRef<[Limb]> argument type, wrapper operands built through From<CtOption> / Default / constant-time selection / a bincode round trip); limb routes: non-trivial when a+b or a-b wraps or is 0 / MAX. Since seeding round 4: the source-literal dictionary (one pair in twelve: operand limb, limb sum or limb difference equal to a literal K of the source under test, K+1 or K-1).",
         assumptions: vec![
             "num-bigint addition / subtraction is correct (independent implementation)".into(),
             "bridging uses from_words / as_words only".into(),
